@@ -276,7 +276,7 @@ func runMscn(t []string) string {
 
 	opts := []gtree.Option{gtree.WithMassive(parent)}
 	if extsS != "-" {
-		opts = append(opts, gtree.WithFileExtensions(plusList(extsS)))
+		opts = append(opts, extOption(extsS))
 	}
 	if target != "-" {
 		opts = append(opts, gtree.WithTargetDir(unhex(target)))
